@@ -25,9 +25,11 @@ def _tags_tuple(ctx):
             parts = t.values if isinstance(t, ast.BoolOp) and isinstance(t.op, ast.And) else [t]
             for p in parts:
                 if isinstance(p, ast.Compare) and isinstance(p.left, ast.Name) and p.left.id == 'tag' \
-                        and isinstance(p.ops[0], ast.In) and isinstance(p.comparators[0], ast.Tuple) \
                         and any(isinstance(s, ast.Expr) and unparse(s.value) == 'self._fill()' for s in n.body):
-                    fill = [const_str(e) for e in p.comparators[0].elts]
+                    if isinstance(p.ops[0], ast.In) and isinstance(p.comparators[0], ast.Tuple):
+                        fill = [const_str(e) for e in p.comparators[0].elts]
+                    elif isinstance(p.ops[0], ast.Eq) and const_str(p.comparators[0]):
+                        fill = [const_str(p.comparators[0])]
     need(tags and None not in tags, 'R39: tag tuple of ElectionRecord.action not found')
     need(fill and None not in fill, 'R38: fill tags of ElectionRecord.action not found')
     return tags, fill
